@@ -223,3 +223,9 @@ Theorem c02_f32_f64_f32 : forall (m m' : mode) (x : F32.t), is_finite x = true -
   exists y z, to_sample_f32_f64 m x = Ok y /\ to_sample_f64_f32 m' y = Ok z /\ B2R z = B2R x /\ is_finite z = true.
 Proof. exact f64_f32_of_f32. Qed.
 Print Assumptions c02_f32_f64_f32.
+
+(* the same float format (f32 -> f32, f64 -> f64: the blanket `impl<S> FromSample<S> for S`): the value itself *)
+Theorem c02_same_format : forall m : mode,
+  (forall x : F32.t, to_sample_f32_f32 m x = Ok x) /\ (forall x : F64.t, to_sample_f64_f64 m x = Ok x).
+Proof. exact float_same_format. Qed.
+Print Assumptions c02_same_format.
